@@ -10,7 +10,21 @@ structure DriverState where
   osBytes : Bytes := []
   objs : List (Nat × DataObj) := []
   static : DataObj := { out := some [], scratchZero := true }
+  desStatic : Des.Ctx := { keysl := Array.replicate 16 0, keysr := Array.replicate 16 0, saltbits := 0 }
+  desObjs : List (Nat × Des.Ctx) := []
+  /-- objects whose scratch area is zero except (possibly) for a key schedule written by setkey_r -/
+  desDirtyOnly : List Nat := []
   deriving Inhabited
+
+def zeroDes : Des.Ctx := { keysl := Array.replicate 16 0, keysr := Array.replicate 16 0, saltbits := 0 }
+
+def DriverState.getDes (st : DriverState) (id : Nat) : Des.Ctx :=
+  match st.desObjs.find? (·.1 == id) with
+  | some (_, d) => d
+  | none => zeroDes
+
+def DriverState.setDes (st : DriverState) (id : Nat) (d : Des.Ctx) : DriverState :=
+  { st with desObjs := (id, d) :: st.desObjs.filter (·.1 != id) }
 
 def DriverState.getObj (st : DriverState) (id : Nat) : DataObj :=
   match st.objs.find? (·.1 == id) with
@@ -128,8 +142,19 @@ def opObj (st : DriverState) (id fill : String) : DriverState × String :=
   match id.toNat? with
   | some id =>
     let d : DataObj := if fill == "z" then { out := some [], scratchZero := true } else { out := none, scratchZero := false }
-    (st.setObj (id % 8) d, "ok")
+    ({ (st.setObj (id % 8) d) with desDirtyOnly := st.desDirtyOnly.filter (· != id % 8), desObjs := st.desObjs.filter (·.1 != id % 8) }, "ok")
   | none => (st, "bad-op")
+
+def validatedReq (cfg : Config) (p s : Option Bytes) : Bool :=
+  match p, s with
+  | some p, some s => decide (p.length < Gen.CRYPT_MAX_PASSPHRASE_SIZE) && !checkBadSaltChars s && (getHashFn cfg.table s).isSome
+  | _, _ => false
+
+/-- `do_setkey_r`: zero the context, salt 0, key from the low bits of 64 bytes (here already packed to 8 bytes) -/
+def opSetkey (key : Bytes) : Des.Ctx := Des.mkCtx key 0
+
+def opEncrypt (c : Des.Ctx) (block : Bytes) (edflag : Nat) : String :=
+  s!"d={showBytes (Des.cryptBlock c block 1 (edflag != 0))} bits01=1"
 
 def opCrypt (st : DriverState) (entry id phrase setting : String) (size : Option String) : DriverState × String :=
   match id.toNat?, argBytes phrase, argBytes setting with
@@ -144,10 +169,12 @@ def opCrypt (st : DriverState) (entry id phrase setting : String) (size : Option
       let d0 := st.getObj id
       if entry == "r" then
         let (d, o) := cryptR cfg D0 tokens p s d0
+        let st := if validatedReq cfg p s then st.setDes id zeroDes else st
         (st.setObj id d, showObs cfg s d o false)
       else if entry == "rn" then
         let sz : Int := match size with | some z => z.toInt?.getD 0 | none => Gen.sizeof_crypt_data
         let (d, o) := cryptRn cfg D0 p s d0 sz
+        let st := if sz ≥ Gen.sizeof_crypt_data ∧ validatedReq cfg p s then st.setDes id zeroDes else st
         (st.setObj id d, showObs cfg s d o false)
       else (st, "bad-op")
   | _, _, _ => (st, "bad-op")
@@ -193,6 +220,25 @@ def stepOp (st : DriverState) (toks : List String) : DriverState × String :=
   | ["G", entry, pfx, count, rb, nrb, osz] => (st, opGensalt st entry pfx count rb nrb osz)
   | ["K", s] => (st, opChecksalt s)
   | ["KE", s] => (st, opChecksaltEnum s)
+  | "SK" :: k :: _ => (match (argBytes k).bind id with | some k => ({ st with desStatic := opSetkey k }, "ok") | none => (st, "bad-op"))
+  | "SKR" :: ids :: k :: _ =>
+    (match ids.toNat?, (argBytes k).bind (fun x => x) with
+     | some id, some k =>
+       -- do_setkey_r zeroes the des_ctx inside `internal` and writes the schedule: the area stays all-zero only if
+       -- the rest of it was zero and the schedule itself is zero (zero key up to parity)
+       let c := opSetkey k
+       -- `internal` outside the des_ctx, `reserved`, `initialized`: zero iff they were zero when setkey_r was first used
+       -- since the last fill / wipe (earlier setkey_r calls only ever touched the des_ctx, which is cleared first)
+       let otherZero := (st.getObj (id % 8)).scratchZero || (st.desObjs.any (·.1 == id % 8) && st.desDirtyOnly.contains (id % 8))
+       let z := otherZero && c.keysl.all (· == 0) && c.keysr.all (· == 0)
+       let st' := (st.setDes (id % 8) c).setObj (id % 8) { (st.getObj (id % 8)) with scratchZero := z }
+       ({ st' with desDirtyOnly := if otherZero then (id % 8) :: st.desDirtyOnly.filter (· != id % 8) else st.desDirtyOnly.filter (· != id % 8) }, "ok")
+     | _, _ => (st, "bad-op"))
+  | "EN" :: b :: ed :: _ =>
+    (match (argBytes b).bind id, ed.toNat? with | some b, some ed => (st, opEncrypt st.desStatic b ed) | _, _ => (st, "bad-op"))
+  | "ENR" :: ids :: b :: ed :: _ =>
+    (match ids.toNat?, (argBytes b).bind (fun x => x), ed.toNat? with
+     | some id, some b, some ed => (st, opEncrypt (st.getDes (id % 8)) b ed) | _, _, _ => (st, "bad-op"))
   | "H" :: alg :: _ :: chunks => (st, opHash alg chunks)
   | ["HM", alg, k, t] => (st, opHmac alg k t)
   | ["PB", p, s, c, dk] => (st, opPbkdf2 p s c dk)
